@@ -63,6 +63,17 @@ Theorem C04_basex_dasch_rowwise :
 Proof. exact basex_dasch_rowwise. Qed.
 Print Assumptions C04_basex_dasch_rowwise.
 
+(* basex with the intensity correction (correction=True): the matrix is the uncorrected one with its columns
+   multiplied by the data-independent correction vector, scaled by dr^(+-1); it is applied by basex_core *)
+Theorem C04_basex_corrected :
+  forall (F : fieldType) (n : nat) (M Mc : 'M[F]_n) (cor : 'rV[F]_n) (dr : F),
+  (basex_matrix_forward_corr_dr1 M Mc cor = colmul (basex_A_forward_exact M Mc) cor /\
+   basex_matrix_inverse_corr_dr1 M Mc cor = colmul (basex_A_inverse_exact M Mc) cor) /\
+  (basex_matrix_forward_corr_dr M Mc cor dr = dr *: basex_matrix_forward_corr_dr1 M Mc cor /\
+   basex_matrix_inverse_corr_dr M Mc cor dr = dr^-1 *: basex_matrix_inverse_corr_dr1 M Mc cor).
+Proof. exact (fun F n M Mc cor dr => conj (basex_corrected_is_colmul M Mc cor) (basex_corrected_dr M Mc cor dr)). Qed.
+Print Assumptions C04_basex_corrected.
+
 (* rbasex: the radial profile of each angular order is multiplied by a fixed matrix *)
 Theorem C04_rbasex_rowwise :
   forall (F : fieldType) (Rmax : nat) (P : 'M[F]_(Rmax.+1)) (p : 'rV[F]_(Rmax.+1)),
@@ -182,6 +193,27 @@ exact (fun dr pi => conj (hl_forward_tied dr pi) (conj (hl_inverse0_tied dr pi)
         (conj (hl_inverse0_last dr pi) (hl_inverse1_tied dr pi)))).
 Qed.
 Print Assumptions C04_hansenlaw_dr_sites_tied.
+
+(* the model's recursion is the loop of hansenlaw.py: the element-wise state update, the two driving
+   columns used, the output (sum of the states) and the order of the columns are GENERATED from the source
+   (gen/DrSites.v: hl_step_elem, hl_cols) and equal to what model/HansenLaw.v does *)
+Theorem C04_hansenlaw_model_is_source :
+  (forall p ph c0 b0 c1 b1 xk x d1 d0,
+     stepR (cons p ph) (cons c0 b0) (cons c1 b1) (cons xk x) d1 d0 =
+     cons (g_hl_step_elem p c0 c1 xk d1 d0) (stepR ph b0 b1 x d1 d0)) /\
+  (forall t ts col d x,
+     runR (cons t ts) col d x =
+     let x' := stepR (c_phi R t) (c_B0 R t) (c_B1 R t) x (List.nth (S col) d 0) (List.nth col d 0) in
+     cons (sumR x') (runR ts (Nat.pred col) d x')) /\
+  (forall cols, hl_cols cols = visited (Nat.sub cols 2) (Nat.sub cols 2)) /\
+  (forall K tabs d,
+     hl_coreR K tabs d =
+     let outs := List.rev (runR tabs (Nat.sub (List.length d) 2) d (List.repeat 0 K)) in
+     cons (List.hd 0 outs) (List.app outs (cons (List.last outs 0) nil))).
+Proof.
+exact (conj hl_step_is_source (conj hl_run_is_source (conj hl_columns_are_source hl_core_is_source))).
+Qed.
+Print Assumptions C04_hansenlaw_model_is_source.
 
 (* onion_bordas: the only use of dr is the final division *)
 Theorem C04_dr_onion_bordas : forall dr y : R, dr <> 0 -> g_ob_scale dr y = / dr * g_ob_scale 1 y.
